@@ -63,7 +63,7 @@ class PendingNamedExpr(PendingExprGeneric[NamedExpr]):
                 value=List(
                     elts=[
                         result,
-                        self.node.target,
+                        self.nsp.get_load_name(self.node.target.id),
                     ],
                     ctx=Load(),
                 ),
